@@ -277,7 +277,12 @@ def compare(H, M, info, expect, xattrs=True, holes=True, stats=None, linkkinds=N
         if k == "reg":
             cnt("cmp_bytes", h["size"])
             if m["size"] != h["size"]:
-                d.append(("size", k, p, "host %d image %d" % (h["size"], m["size"])))
+                # a size cut back to (the block end of) the last data byte is its own class
+                hh = h["holes"]
+                # (the host hole starts on a 4 KiB page boundary, the stored data may end earlier)
+                eofhole = bool(hh) and hh[-1][1] >= h["size"] and hh[-1][0] - 4096 <= m["size"] < h["size"]
+                d.append(("size-eofhole" if eofhole else "size", k, p,
+                          "host %d image %d (host holes %r)" % (h["size"], m["size"], hh[-2:])))
             elif m["sha"] != h["sha"]:
                 d.append(("content", k, p, "sha256 differs (size %d, host holes %r, image holes %r)" %
                           (h["size"], h["holes"][:4], (m["holes"] or [])[:4])))
@@ -754,7 +759,7 @@ def _run_case(seed, t, fsname, par, spec_override, tools_root, do_tar, wdir, mou
         for attr, kind, p, detail in diffs:
             if route == "A":
                 badA.add(p)
-            data_attr = attr in ("size", "content") or attr.startswith("hole-")
+            data_attr = attr in ("size", "size-eofhole", "content") or attr.startswith("hole-")
             key = "C18 %s %s %s %s%s" % (route, prefix, attr, kind, sfx if (route in "ABT" and data_attr) else "")
             seen.setdefault(key, []).append("%r: %s" % (p[-120:], detail))
         for key, l in seen.items():
@@ -1119,7 +1124,7 @@ def main(tier, seed, replay=None, scale=1.0):
                 if scale < 0.5:
                     par["scale"] = 0.6
                 for j, fsname in enumerate(fss):
-                    items.append((seed, t, fsname, par, None, b.root, avail and t % 8 == 3 and j == 0, w.dir))
+                    items.append((seed, t, fsname, par, None, b.root, avail and t % 4 == 3 and j == t % 2, w.dir))
             rep.extra["copy_path"] = copy_path_probe(b, env, w)
         results = run.pmap(_case, items)
         for it, r in zip(items, results):
